@@ -46,11 +46,11 @@ Proof. repeat split; reflexivity. Qed.
    and nothing that can fail comes after the deletion *)
 Lemma bridge_sync_then_delete :
   reap_prims gen_prog gen_dispatch FHarvester None false
-  = [PFallible 7; PFallible 1; PFallible 2; PFallible 3; PFallible 4; PFallible 5; PFallible 6; PDelete]
+  = [PFallible 7; PFallible 2; PFallible 1; PFallible 2; PFallible 3; PFallible 4; PFallible 5; PFallible 6; PDelete]
   /\ reap_prims gen_prog gen_dispatch FSampler None false
-  = [PFallible 7; PFallible 1; PFallible 2; PFallible 3; PFallible 4; PFallible 5; PFallible 6; PDelete]
+  = [PFallible 7; PFallible 2; PFallible 1; PFallible 2; PFallible 3; PFallible 4; PFallible 5; PFallible 6; PDelete]
   /\ reap_prims gen_prog gen_dispatch FNone None false
   = [PFallible 1; PFallible 2; PFallible 3; PFallible 5; PDelete]
   /\ reap_prims gen_prog gen_dispatch FRunner None false
-  = [PFallible 1; PFallible 2; PFallible 3; PFallible 4; PFallible 5; PDelete].
+  = [PFallible 2; PFallible 1; PFallible 2; PFallible 3; PFallible 4; PFallible 5; PDelete].
 Proof. repeat split; vm_compute; reflexivity. Qed.
